@@ -11,6 +11,7 @@ package chainsim
 
 import (
 	"fmt"
+	"os"
 	"sort"
 
 	"cosmossdk.io/math"
@@ -151,6 +152,9 @@ func (m *c11Mon) afterBlock() {
 		}
 		if total.GT(sdk.NewIntFromUint64(^uint64(0)).Quo(limit)) {
 			r.Probe("c11_limit_times_cu_exceeds_uint64")
+			if c11DebugHuge {
+				r.Fail("debug-huge-tracked-cu", "payout", "tracked CU total %s of %s month@%d: %v", total, s.NameOf(t.Consumer), t.Data.Block, c11TrackedStr(s, tl))
+			}
 		}
 		for _, e := range tl {
 			cu := sdk.NewIntFromUint64(e.Cu)
@@ -228,6 +232,10 @@ func (m *c11Mon) afterBlock() {
 		r.Check(ok, "zero-cu-credit-not-returned", "live-subscription", "month of %s without tracked CU paid out at the end of block %d: credit %s should be back in the subscription (credit before %s), found=%v credit after %s", s.NameOf(c), sn.height, returned[c], before.Credit.Amount, found, after.Credit.Amount)
 	}
 }
+
+// c11DebugHuge (C11_DEBUG_HUGE=1) turns the observation of a tracked-CU total beyond 2^64/LIMIT into
+// a failure so that its history can be minimised (investigation aid, not an oracle).
+var c11DebugHuge = os.Getenv("C11_DEBUG_HUGE") == "1"
 
 func c11TrackedStr(s *Sim, tl []c11Tracked) string {
 	out := "["
